@@ -549,8 +549,8 @@ func (x *TopicsIndex) scanMessages(filter string, d int, n *particle, pks []pack
 
 	key, hasNext := isolateParticle(filter, d)
 	if key == "+" || key == "#" || d == -1 {
-		if key == "#" && d == strings.Count(filter, "/") && n.retainPath != "" {
-			if pk, ok := x.Retained.Get(n.retainPath); ok { // filter/# also matches filter as per 4.7.1.2
+		if path := n.getRetainPath(); key == "#" && d == strings.Count(filter, "/") && path != "" {
+			if pk, ok := x.Retained.Get(path); ok { // filter/# also matches filter as per 4.7.1.2
 				pks = append(pks, pk)
 			}
 		}
@@ -561,8 +561,8 @@ func (x *TopicsIndex) scanMessages(filter string, d int, n *particle, pks []pack
 			}
 
 			if !hasNext {
-				if adjacent.retainPath != "" {
-					if pk, ok := x.Retained.Get(adjacent.retainPath); ok {
+				if path := adjacent.getRetainPath(); path != "" {
+					if pk, ok := x.Retained.Get(path); ok {
 						pks = append(pks, pk)
 					}
 				}
@@ -580,7 +580,7 @@ func (x *TopicsIndex) scanMessages(filter string, d int, n *particle, pks []pack
 			return x.scanMessages(filter, d+1, particle, pks)
 		}
 
-		if pk, ok := x.Retained.Get(particle.retainPath); ok {
+		if pk, ok := x.Retained.Get(particle.getRetainPath()); ok {
 			pks = append(pks, pk)
 		}
 	}
@@ -779,6 +779,18 @@ type particle struct {
 	inlineSubscriptions *InlineSubscriptions // a map of inline subscriptions for this particle
 	retainPath          string               // path of a retained message
 	sync.Mutex                               // mutex for when making changes to the particle
+}
+
+// getRetainPath returns the path of the particle's retained message under the particle's lock, which
+// RetainMessage holds while changing it. The root particle never carries a retained message (its mutex is
+// the index-wide writer lock).
+func (p *particle) getRetainPath() string {
+	if p.parent == nil {
+		return ""
+	}
+	p.Lock()
+	defer p.Unlock()
+	return p.retainPath
 }
 
 // newParticle returns a pointer to a new instance of particle.
